@@ -5,44 +5,64 @@ stoichiometric model whose stoichiometries are balanced by construction (rationa
 """
 import numpy as np
 import thermosteam as tmo
-from thermosteam.exceptions import InfeasibleRegion
+from thermosteam.exceptions import InfeasibleRegion, UndefinedChemicalAlias
 from vt.core import case_hash
 from vt import rxn as R
-from vt.common import SV, SA, sparse_invariant
+from vt.common import SV, SA, sparse_invariant, thermo_of
 
 PID = 'C05'
 RULE = ('random cases: 1-4 balanced reactions (null space of the C/H/O formula matrix over 16 chemicals, fractional coefficients, plus textbook reactions), '
         'combined as single / ParallelReaction / SeriesReaction / ReactionSystem, mol and wt basis (wt reactions constructed from mass coefficients), '
         'string and dict definitions, phase-less and phase-tagged (g/l); targets: Stream, MultiStream, stream on a permuted property package, bare SparseVector, '
         'ndarray, SparseArray, 2-d ndarray; feeds 10^U(-3,3) made sufficient in the co-reactants with probability 0.7. '
+        'Coverage additions: sets / systems of ONE member; string terms with implicit / integer coefficients, reactant and phases inferred by the constructor; phase sets '
+        "('l','s'), ('L','l'), ('g','l','s'), ('L','g','l'); the stream's own flow vectors (imol.data / imass.data, DictionaryView write-back) as the bare array; streams on a strict "
+        'subset package and on a superset package (extra inert with/without flow; with flow the UndefinedChemicalAlias refusal is counted); items, iteration items and slices of a set '
+        'applied instead of the set; sibling appliers force_reaction (judged when the model is feasible), conversion(material) (returned change = X*feed_r*nu) and '
+        'ReactionSystem.reactant_flux (= extent of the addressed member on the running composition); a co-reactant fed in exactly the amount consumed (zero up to round-off). '
         'non-trivial = some conversion in (0,1] with non-zero reactant feed, >=3 species, normal return; distinct = hash of the case')
 MIN_NONTRIVIAL = {'quick': 500, 'thorough': 20000}
 ASSUMPTIONS = ['element counts come from a table written in the harness and cross-checked against the library at start-up',
-               'between a predicted negative total of -1e-9 and -1e-13 (the library threshold is -1e-12) neither raising nor returning is judged']
+               'between a predicted negative total of -1e-9 and -1e-13 (the library threshold is -1e-12) neither raising nor returning is judged',
+               'force_reaction (documented to ignore feasibility) is judged only when the dense model predicts no negative flow; non-negativity is not demanded of it',
+               'with a co-reactant fed in exactly the amount consumed (added boundary branch) an InfeasibleRegion is counted, not judged: round-off of the flows decides the sign',
+               'a stream carrying a chemical the reaction package does not know is refused by the library (UndefinedChemicalAlias): counted, not judged']
 
 
 def required(tier):
     return ['target:multistream', 'single', 'parallel', 'series', 'system', 'basis-equivalence', 'target:stream', 'target:stream-foreign', 'target:sv', 'target:nd',
-            'target:sa', 'target:nd2', 'must-raise', 'phase-tagged']
+            'target:sa', 'target:nd2', 'must-raise', 'phase-tagged',
+            'set:one-member', 'system:one-part', 'form:str-int', 'form:auto-reactant', 'form:auto-phase', 'phases:solid', 'phases:three', 'phases:Ll', 'target:stream.mol', 'target:stream.mass',
+            'target:stream-subset', 'target:stream-superset', 'sub:item', 'sub:iter', 'sub:slice', 'call:force', 'conversion', 'reactant-flux', 'feed:co-reactant-exactly-consumed']
+
+
+PHASE_SETS = [('g', 'l')] * 6 + [('l', 's'), ('L', 'l'), ('g', 'l', 's'), ('L', 'g', 'l')]      # sorted the way the library sorts phases
+EXTRA = 'Octanol'        # a chemical the reactions' package does not know (superset packages)
 
 
 def gen_case(rng):
     comb = rng.choice(['single', 'single', 'parallel', 'series', 'system'])
     tagged = rng.random() < 0.3
     basis = rng.choice(['mol', 'mol', 'wt'])
-    phmap = {i: rng.choice('lg') for i in R.IDS} if tagged else None
+    phases = list(rng.choice(PHASE_SETS)) if tagged else None
+    phmap = {i: rng.choice(phases) for i in R.IDS} if tagged else None
     def one(allowed=None):
         d = R.gen_reaction(rng, allowed=allowed, phases_p=0)
         d['basis'] = basis
         if tagged: d['ph'] = {i: phmap[i] for i in d['st']}
+        # construction forms: integer-style / implicit coefficients in the string, reactant and phases left to the constructor
+        d['form'] = rng.choice(['str', 'dict', 'str-int'])
+        d['space'] = rng.random() < 0.5
+        if sum(1 for v in d['st'].values() if v < 0) == 1 and rng.random() < 0.5: d['auto_reactant'] = True
+        if tagged and rng.random() < 0.3: d['auto_phase'] = True     # honoured when the reaction names every phase of the case
         return d
     if comb == 'single': members = [one()]
-    elif comb in ('parallel', 'series'): members = [one() for _ in range(rng.randrange(2, 5))]
+    elif comb in ('parallel', 'series'): members = [one() for _ in range(rng.randrange(1, 5))]
     else:
         members = []
-        for _ in range(rng.randrange(2, 4)):
+        for _ in range(rng.randrange(1, 4)):
             k = rng.choice(['single', 'parallel', 'series'])
-            members.append({'k': k, 'rx': [one() for _ in range(1 if k == 'single' else rng.randrange(2, 4))]})
+            members.append({'k': k, 'rx': [one() for _ in range(1 if k == 'single' else rng.randrange(1, 4))]})
     # feed
     flows = {}
     for i in R.IDS:
@@ -58,20 +78,84 @@ def gen_case(rng):
                 if v < 0 and i != r['reactant']:
                     need = fr * r['X'] * v / st[r['reactant']] * len(all_rx) * 1.5
                     flows[i] = max(flows.get(i, 0.0), need * rng.uniform(1.0, 3.0))
+    exact = False
+    if rng.random() < 0.12:
+        # boundary of feasibility: one co-reactant fed in exactly the amount the (first-order) extent needs -> it ends at zero up to round-off of either sign
+        r = rng.choice(all_rx); cands = [i for i, v in r['st'].items() if v < 0 and i != r['reactant']]
+        if cands and r['X'] > 0 and flows.get(r['reactant'], 0.0) > 0:
+            i = rng.choice(cands); flows[i] = flows[r['reactant']] * r['X'] * r['st'][i] / r['st'][r['reactant']]; exact = True
     if tagged:
         feed = {}
         for i, v in flows.items():
-            if rng.random() < 0.8: feed[phmap[i] + '/' + i] = v
-            else: feed[('l' if phmap[i] == 'g' else 'g') + '/' + i] = v   # material sitting in the other phase
+            if rng.random() < (0.8 if not exact else 1.0): feed[phmap[i] + '/' + i] = v
+            else: feed[rng.choice([p for p in phases if p != phmap[i]]) + '/' + i] = v   # material sitting in another phase
     else:
         feed = flows
-    if tagged: target = rng.choice(['stream', 'stream', 'stream-foreign', 'sa', 'nd2'])
-    else: target = rng.choice(['stream', 'stream', 'stream-foreign', 'sv', 'nd'] * 4 + ['multistream'])     # phase-less reaction offered a multi-phase stream: refused or conserving, never silently wrong
-    return {'comb': comb, 'members': members, 'tagged': tagged, 'basis': basis, 'feed': feed, 'target': target, 'phase': rng.choice('lg')}
+    vec = 'stream.mol' if basis == 'mol' else 'stream.mass'      # the stream's own flow vector handed over as the bare array (in the units of the reaction's basis)
+    if tagged: target = rng.choice(['stream', 'stream', 'stream-foreign', 'sa', 'nd2'] * 3 + [vec, vec, 'stream-subset', 'stream-superset'])
+    else: target = rng.choice(['stream', 'stream', 'stream-foreign', 'sv', 'nd'] * 4 + ['multistream', vec, vec, 'stream-subset', 'stream-superset'])     # phase-less reaction offered a multi-phase stream: refused or conserving, never silently wrong
+    case = {'comb': comb, 'members': members, 'tagged': tagged, 'basis': basis, 'feed': feed, 'target': target, 'phase': rng.choice('lg')}
+    if tagged: case['phases'] = phases
+    if exact: case['exact'] = True
+    if target in ('stream-subset', 'stream-superset'):
+        need = sorted(set(flows) | {i for r in all_rx for i in r['st']})
+        if target == 'stream-subset':
+            rest = [i for i in R.IDS if i not in need]
+            if not rest: case['target'] = 'stream-foreign'
+            else:
+                pkg = need + rng.sample(rest, rng.randrange(0, len(rest)))       # a strict subset of the reactions' package, in another order
+                rng.shuffle(pkg); case['pkg'] = pkg
+        else:
+            pkg = list(R.PERM); pkg.insert(rng.randrange(len(pkg) + 1), EXTRA); case['pkg'] = pkg
+            case['extra_flow'] = rng.choice([0.0, 0.0, round(10 ** rng.uniform(-2, 2), 3)])
+    # an item / iteration item / slice of the set applied instead of the set
+    if comb in ('parallel', 'series') and rng.random() < 0.2:
+        n = len(members); u = rng.random()
+        if u < 0.35 or n == 1: case['sub'] = [rng.choice(['item', 'iter']), rng.randrange(n)]
+        elif u < 0.5: case['sub'] = ['item', -rng.randrange(1, n + 1)]
+        else:
+            lo = rng.randrange(0, n - 1); case['sub'] = ['slice', lo, rng.randrange(lo + 1, n + 1)]
+    # sibling appliers
+    u = rng.random()
+    single_like = comb == 'single' or (case.get('sub') and case['sub'][0] in ('item', 'iter'))
+    if case['target'] != 'multistream':
+        if u < 0.07: case['call'] = 'force'
+        elif u < 0.2 and single_like: case['call'] = 'conversion'
+        elif u < 0.3 and comb == 'system':
+            i = rng.randrange(len(members)); m = members[i]
+            j = None if m['k'] == 'single' else rng.randrange(len(m['rx']))
+            if m['k'] == 'parallel' and rng.random() < 0.4: j = None          # the summed flux of the parallel part
+            if m['k'] == 'series' and rng.random() < 0.08: j = None            # documented ValueError
+            case['call'] = 'flux'; case['flux'] = [i, j]
+    return case
+
+
+def build_one(desc, th, phases=('g', 'l')):
+    """one Reaction from its description; the forms of the first version go through the shared builder, the added ones are written out here."""
+    plain = desc.get('form') in ('str', 'dict') and not desc.get('auto_reactant') and not desc.get('auto_phase')
+    if plain and tuple(phases) == ('g', 'l'): return R.build_reaction(desc, th)
+    d = desc['st']; basis = desc['basis']; MW = R.mw(th); ph = desc.get('ph')
+    coeff = {i: (v * MW[i] if basis == 'wt' else v) for i, v in d.items()}
+    if desc['form'] in ('str', 'str-int'):
+        def term(i, v):
+            a = abs(v)
+            if desc['form'] == 'str-int' and a == 1: n = ''                                                  # "CH4"
+            elif desc['form'] == 'str-int' and a == int(a): n = str(int(a)) + (' ' if desc.get('space') else '')     # "2O2" / "2 O2"
+            else: n = repr(a)
+            return n + i + (',' + ph[i] if ph else '')
+        rx = ' + '.join(term(i, v) for i, v in coeff.items() if v < 0) + (' -> ' if desc.get('space', True) else '->') + ' + '.join(term(i, v) for i, v in coeff.items() if v > 0)
+    else:
+        rx = {i: ((ph[i], v) if ph else v) for i, v in coeff.items()}
+    kw = {}
+    if ph and not (desc.get('auto_phase') and set(ph.values()) == set(phases)): kw['phases'] = tuple(phases)
+    reactant = desc['reactant']
+    if desc.get('auto_reactant') and sum(1 for v in d.values() if v < 0) == 1: reactant = None
+    return tmo.Reaction(rx, reactant=reactant, X=desc['X'], chemicals=th.chemicals, basis=basis, **kw)
 
 
 def build(case, th):
-    def one(d): return R.build_reaction(d, th)
+    phases = tuple(case.get('phases') or ('g', 'l'))
+    def one(d): return build_one(d, th, phases)
     comb = case['comb']
     if comb == 'single': return one(case['members'][0])
     if comb == 'parallel': return tmo.ParallelReaction([one(d) for d in case['members']])
@@ -81,6 +165,23 @@ def build(case, th):
         rs = [one(d) for d in m['rx']]
         parts.append(rs[0] if m['k'] == 'single' else (tmo.ParallelReaction(rs) if m['k'] == 'parallel' else tmo.SeriesReaction(rs)))
     return tmo.ReactionSystem(*parts)
+
+
+def select(rx, case):
+    """the object that is applied: the set itself, or an item / iteration item / slice of it."""
+    sub = case.get('sub')
+    if not sub: return rx
+    if sub[0] == 'item': return rx[sub[1]]
+    if sub[0] == 'iter': return list(rx)[sub[1]]
+    return rx[sub[1]:sub[2]]
+
+
+def effective(case):
+    """the case as the dense model sees it (an item is a single reaction, a slice a shorter set)."""
+    sub = case.get('sub')
+    if not sub: return case
+    if sub[0] in ('item', 'iter'): return dict(case, comb='single', members=[case['members'][sub[1]]])
+    return dict(case, members=case['members'][sub[1]:sub[2]])
 
 
 def model(case, flows):
@@ -113,25 +214,41 @@ def feed_dict(case):
     return dict(case['feed'])
 
 
+def stream_package(case):
+    t = case['target']
+    if t == 'stream-foreign': return R.thermo(perm=True)
+    if t in ('stream-subset', 'stream-superset'): return thermo_of(tuple(case['pkg']))
+    return R.thermo()
+
+
 def make_target(case, th, flows, MW):
     """returns (object passed to the reaction, reader() -> molar flows dict in the same keying as flows)"""
     t = case['target']; tagged = case['tagged']; basis = case['basis']
     ids = th.chemicals.IDs
-    if t in ('stream', 'stream-foreign'):
-        sth = R.thermo(perm=True) if t == 'stream-foreign' else th
+    phases = tuple(case.get('phases') or ('g', 'l'))
+    if t in ('stream', 'stream-foreign', 'stream-subset', 'stream-superset', 'stream.mol', 'stream.mass'):
+        sth = stream_package(case)
         if tagged:
-            s = tmo.MultiStream(None, phases=('g', 'l'), thermo=sth)
+            s = tmo.MultiStream(None, phases=phases, thermo=sth)
+            if s.phases != phases: raise RuntimeError(f'phase order {s.phases} != {phases}')
             for (ph, i), v in flows.items(): s.imol[ph, i] = v
             def read():
                 out = {}
                 for ph, row in zip(s.phases, s.imol.data.rows):
-                    for j, v in row.dct.items(): out[(ph, s.chemicals.IDs[j])] = v
+                    for j, v in row.dct.items():
+                        if s.chemicals.IDs[j] != EXTRA: out[(ph, s.chemicals.IDs[j])] = v
                 return out
         else:
             s = tmo.Stream(None, phase=case['phase'], thermo=sth)
             for i, v in flows.items(): s.imol[i] = v
             def read():
-                return {s.chemicals.IDs[j]: v for j, v in s.imol.data.dct.items()}
+                return {s.chemicals.IDs[j]: v for j, v in s.imol.data.dct.items() if s.chemicals.IDs[j] != EXTRA}
+        if t == 'stream-superset' and case.get('extra_flow'):
+            if tagged: s.imol[phases[0], EXTRA] = case['extra_flow']
+            else: s.imol[EXTRA] = case['extra_flow']
+        read.stream = s
+        if t == 'stream.mol': return s.imol.data, read           # the stream's own molar flow vector
+        if t == 'stream.mass': return s.imass.data, read         # mass flows: a view over the molar data (copy and write-back inside the reaction call)
         return s, read
     # bare arrays are in the units of the reaction's basis
     f = (lambda i: MW[i]) if basis == 'wt' else (lambda i: 1.0)
@@ -143,13 +260,33 @@ def make_target(case, th, flows, MW):
             a = obj.to_array() if t == 'sv' else obj
             return {ids[j]: a[j] / f(ids[j]) for j in range(len(ids)) if a[j]}
         return obj, read
-    arr = np.zeros((2, len(ids)))
-    for (ph, i), v in flows.items(): arr[0 if ph == 'g' else 1, ids.index(i)] = v * f(i)
+    arr = np.zeros((len(phases), len(ids)))
+    for (ph, i), v in flows.items(): arr[phases.index(ph), ids.index(i)] = v * f(i)
     obj = SA(arr) if t == 'sa' else arr
     def read():
         a = obj.to_array() if t == 'sa' else obj
-        return {('g' if r == 0 else 'l', ids[j]): a[r, j] / f(ids[j]) for r in range(2) for j in range(len(ids)) if a[r, j]}
+        return {(phases[r], ids[j]): a[r, j] / f(ids[j]) for r in range(len(phases)) for j in range(len(ids)) if a[r, j]}
     return obj, read
+
+
+def reach_of_case(case, rec):
+    """reach counters of the added generator branches."""
+    all_rx = case['members'] if case['comb'] != 'system' else [r for m in case['members'] for r in m['rx']]
+    if case['comb'] in ('parallel', 'series') and len(case['members']) == 1: rec.hit('set:one-member')
+    if case['comb'] == 'system':
+        if len(case['members']) == 1: rec.hit('system:one-part')
+        if any(m['k'] != 'single' and len(m['rx']) == 1 for m in case['members']): rec.hit('set:one-member')
+    phases = tuple(case.get('phases') or ('g', 'l'))
+    for d in all_rx:
+        if d.get('form') == 'str-int': rec.hit('form:str-int')
+        if d.get('auto_reactant') and sum(1 for v in d['st'].values() if v < 0) == 1: rec.hit('form:auto-reactant')
+        if d.get('ph') and d.get('auto_phase') and set(d['ph'].values()) == set(phases): rec.hit('form:auto-phase')
+    if case['tagged']:
+        if 's' in phases: rec.hit('phases:solid')
+        if 'L' in phases: rec.hit('phases:Ll')
+        if len(phases) == 3: rec.hit('phases:three')
+    if case.get('sub'): rec.hit('sub:' + case['sub'][0])
+    if case.get('exact'): rec.hit('feed:co-reactant-exactly-consumed')
 
 
 def run_case(case, rec):
@@ -158,9 +295,12 @@ def run_case(case, rec):
     MW = R.mw(th)
     flows = feed_dict(case)
     try:
-        rx = build(case, th)
+        rx = select(build(case, th), case)
     except Exception as e:
         rec.exception('construct', e, what=f'constructing {case["comb"]} reaction raised {type(e).__name__}: {str(e)[:200]}'); return
+    full = case
+    case = effective(full)            # what the dense model sees: an item is a single reaction, a slice a shorter set
+    call = case.get('call', 'call')
     expected = model(case, flows)
     neg_mol = sum(v for v in expected.values() if v < 0)
     neg_mass = sum(MW[k[1] if isinstance(k, tuple) else k] * v for k, v in expected.items() if v < 0)
@@ -204,17 +344,42 @@ def run_case(case, rec):
         return
     obj, read = make_target(case, th, flows, MW)
     tag = f'{case["comb"]}/{case["basis"]}/{"tagged" if case["tagged"] else "phase-less"}/{case["target"]}'
+    if full.get('sub'): tag += '/of-' + full['comb'] + '-' + full['sub'][0]
+    if call == 'force': tag += '/force_reaction'
     rec.hit('target:' + case['target']); rec.hit(case['comb'])
     if case['tagged']: rec.hit('phase-tagged')
+    reach_of_case(full, rec)
     scale = max([abs(v) for v in flows.values()] + [1e-300])
+    stream = getattr(read, 'stream', None)
+    foreign = case['target'] in ('stream-foreign', 'stream-subset', 'stream-superset')
+    def restored(how):
+        if foreign:
+            pk = stream_package(case).chemicals
+            rec.check(stream.chemicals is pk and stream.imol.chemicals is pk, 'package-restored', f'{how}/{tag}',
+                      f'after {how} the stream is not back on its own property package (stream.chemicals own: {stream.chemicals is pk}, stream.imol.chemicals own: {stream.imol.chemicals is pk})')
+    if call in ('conversion', 'flux'):
+        return siblings(call, case, full, rec, rx, obj, read, flows, expected, th, MW, tag, scale, restored)
     try:
-        rx(obj)
+        (rx.force_reaction if call == 'force' else rx)(obj)
         raised = None
     except InfeasibleRegion as e:
         raised = e
+    except UndefinedChemicalAlias as e:
+        if case['target'] == 'stream-superset' and case.get('extra_flow'):
+            rec.refuse('stream carries a chemical the reaction package does not know (UndefinedChemicalAlias)'); return
+        rec.exception('react', e, what=f'reaction call ({tag}) raised {type(e).__name__}: {str(e)[:200]}'); return
     except Exception as e:
         rec.exception('react', e, what=f'reaction call ({tag}) raised {type(e).__name__}: {str(e)[:200]}'); return
+    if call == 'force':
+        rec.hit('call:force')
+        if raised is not None:
+            rec.check(False, 'react', f'force-raised-infeasible/{tag}', 'force_reaction (documented to ignore feasibility checks) raised InfeasibleRegion'); return
+        if neg < -1e-13 or inter_neg < -1e-13:
+            rec.refuse('force_reaction of a conversion the model finds infeasible (feasibility deliberately unchecked; not judged)'); return
     if raised is not None:
+        if full.get('exact') and neg >= -1e-13 and inter_neg >= -1e-13:
+            # added boundary branch only: a co-reactant is fed in exactly the amount consumed, so whether the (absolute) -1e-12 threshold is crossed is decided by round-off of the flows themselves
+            rec.refuse('InfeasibleRegion at the exact-consumption boundary (round-off decides; not judged)'); return
         if neg >= -1e-13 and inter_neg < -1e-13:
             rec.hit('series:intermediate-infeasible'); rec.refuse('InfeasibleRegion (an intermediate composition of the series would be negative)'); return
         if neg < -1e-13:
@@ -242,7 +407,7 @@ def run_case(case, rec):
               detail={'expected': {str(k): v for k, v in expected.items()}, 'got': {str(k): v for k, v in got.items()}})
     # (2) no negative flow
     negs = [(str(k), v) for k, v in got.items() if v < 0]
-    rec.check(not negs, 'non-negative', f'{tag}', f'negative flows after a normal return: {negs[:4]}')
+    if call != 'force': rec.check(not negs, 'non-negative', f'{tag}', f'negative flows after a normal return: {negs[:4]}')
     # (3) mass and atoms (independent of the model: only needs the stoichiometry to be balanced, which it is by construction)
     m0, m1 = R.mass_of(flows, MW), R.mass_of(got, MW)
     rec.check(abs(m1 - m0) <= 1e-11 * max(m0, m1) + 1e-9 * 0, 'mass', f'{tag}', f'total mass changed {m0!r} -> {m1!r}', residual=abs(m1 - m0) / max(m0, 1e-300))
@@ -258,17 +423,23 @@ def run_case(case, rec):
         rec.check(abs((f0 - f1) - d['X'] * f0) <= 1e-11 * f0 + 1e-300, 'reactant-consumed', f'{tag}', f'reactant consumed {f0 - f1!r} != X*feed {d["X"] * f0!r}',
                   residual=abs((f0 - f1) - d['X'] * f0) / max(f0, 1e-300))
     # (5) invariants of sparse targets
-    if isinstance(obj, (SV, SA)):
+    if case['target'] in ('stream.mol', 'stream.mass'):
+        e = sparse_invariant(stream.imol.data); rec.check(e is None, 'invariant', tag, f'sparse invariant: {e}')
+    elif isinstance(obj, (SV, SA)):
         e = sparse_invariant(obj); rec.check(e is None, 'invariant', tag, f'sparse invariant: {e}')
     elif isinstance(obj, tmo.Stream):
         e = sparse_invariant(obj.imol.data); rec.check(e is None, 'invariant', tag, f'sparse invariant: {e}')
         if case['target'] == 'stream-foreign':
             rec.check(obj.chemicals is R.thermo(perm=True).chemicals, 'package-restored', tag, 'stream did not get its own property package back')
+        restored('the reaction call')
+        if case['target'] == 'stream-superset':
+            ex = float(np.sum(obj.imol[EXTRA]))
+            rec.check(ex == case.get('extra_flow', 0.0), 'species', f'inert-of-other-package/{tag}', f'flow of {EXTRA} (unknown to the reaction) changed {case.get("extra_flow", 0.0)} -> {ex}')
     # (6) mol and wt copies of the same reaction give the same stream
     if isinstance(obj, tmo.Stream) and case['comb'] in ('single', 'parallel', 'series'):
         other = 'wt' if case['basis'] == 'mol' else 'mol'
         try:
-            rx2 = build(case, th).copy(basis=other)
+            rx2 = select(build(full, th), full).copy(basis=other)
             obj2, read2 = make_target(case, th, flows, MW)
             rx2(obj2)
             got2 = read2()
@@ -281,7 +452,76 @@ def run_case(case, rec):
             rec.exception('basis-equivalence', e, what=f'copy(basis={other}) path raised {type(e).__name__}: {str(e)[:200]}')
     allrx = case['members'] if case['comb'] != 'system' else [r for m in case['members'] for r in m['rx']]
     if any(0 < r['X'] and flows.get((r['ph'][r['reactant']], r['reactant']) if r.get('ph') else r['reactant'], 0) > 0 and len(r['st']) >= 3 for r in allrx):
-        rec.mark_nontrivial(case_hash(case))
+        rec.mark_nontrivial(case_hash(full))
+
+
+def siblings(call, case, full, rec, rx, obj, read, flows, expected, th, MW, tag, scale, restored):
+    """conversion(material): the change a single reaction would make; ReactionSystem.reactant_flux: the amount of reactant a member converts."""
+    ids = th.chemicals.IDs
+    phases = tuple(case.get('phases') or ('g', 'l'))
+    f = (lambda i: MW[i]) if case['basis'] == 'wt' else (lambda i: 1.0)      # streams are read in the basis of the reaction, bare arrays are given in it
+    if call == 'conversion':
+        try:
+            chg = rx.conversion(obj)
+        except UndefinedChemicalAlias as e:
+            if case['target'] == 'stream-superset' and case.get('extra_flow'):
+                rec.refuse('stream carries a chemical the reaction package does not know (UndefinedChemicalAlias)'); return
+            rec.exception('conversion', e, what=f'conversion(material) ({tag}) raised {type(e).__name__}: {str(e)[:200]}'); return
+        except Exception as e:
+            rec.exception('conversion', e, what=f'conversion(material) ({tag}) raised {type(e).__name__}: {str(e)[:200]}'); return
+        a = chg.to_array() if hasattr(chg, 'to_array') else np.asarray(chg, float)
+        if case['tagged']: got = {(phases[r], ids[j]): a[r, j] / f(ids[j]) for r in range(a.shape[0]) for j in range(a.shape[1]) if a[r, j]}
+        else: got = {ids[j]: a[j] / f(ids[j]) for j in range(len(ids)) if a[j]}
+        bad = []; worst = 0.0
+        for k in set(got) | set(expected) | set(flows):
+            x, y = got.get(k, 0.0), expected.get(k, 0.0) - flows.get(k, 0.0)
+            if abs(x - y) > 1e-11 * max(abs(x), abs(y)) + 1e-12 * scale: bad.append((str(k), x, y))
+            worst = max(worst, abs(x - y) / scale)
+        rec.check(not bad, 'conversion', tag, f'conversion(material) != X*feed_r*nu (mol): {bad[:4]}', residual=worst,
+                  detail={'expected-change': {str(k): expected.get(k, 0.0) - flows.get(k, 0.0) for k in set(expected) | set(flows)}, 'got': {str(k): v for k, v in got.items()}})
+        restored('conversion(material)')
+        d = case['members'][0]
+        if d['X'] > 0 and flows.get((d['ph'][d['reactant']], d['reactant']) if d.get('ph') else d['reactant'], 0) > 0 and len(d['st']) >= 3: rec.mark_nontrivial(case_hash(full))
+        return
+    # reactant_flux(material, index, subindex)
+    i, j = case['flux']
+    parts = case['members']
+    try:
+        got = rx.reactant_flux(obj, i) if j is None else rx.reactant_flux(obj, i, j)
+    except UndefinedChemicalAlias as e:
+        if case['target'] == 'stream-superset' and case.get('extra_flow'):
+            rec.refuse('stream carries a chemical the reaction package does not know (UndefinedChemicalAlias)'); return
+        rec.exception('reactant-flux', e, what=f'reactant_flux ({tag}) raised {type(e).__name__}: {str(e)[:200]}'); return
+    except InfeasibleRegion:
+        rec.refuse('reactant_flux: a part ahead of the addressed one is infeasible on this feed'); return
+    except ValueError as e:
+        if parts[i]['k'] == 'series' and j is None and 'subindex' in str(e):
+            rec.refuse('reactant_flux of a series part without subindex (documented ValueError)'); restored('reactant_flux-refused'); return
+        rec.exception('reactant-flux', e, what=f'reactant_flux ({tag}) raised {type(e).__name__}: {str(e)[:200]}'); return
+    except Exception as e:
+        rec.exception('reactant-flux', e, what=f'reactant_flux ({tag}) raised {type(e).__name__}: {str(e)[:200]}'); return
+    # dense model: the parts ahead act in sequence; inside a series part the members ahead act too; inside a parallel part all members see the part's feed
+    fl = dict(flows); lowest = 0.0
+    for m in parts[:i]:
+        fl = model({'comb': m['k'], 'members': m['rx']}, fl)
+        lowest = min([lowest] + list(fl.values()))
+    m = parts[i]
+    if m['k'] == 'series' and j is not None:
+        for d in m['rx'][:j]:
+            fl = R.model_apply(fl, d); lowest = min([lowest] + list(fl.values()))
+    if lowest < -1e-13:
+        rec.refuse('reactant_flux behind an infeasible part (not judged)'); return
+    def amount(d):
+        r = d['reactant']; k = (d['ph'][r], r) if d.get('ph') else r
+        return d['X'] * fl.get(k, 0.0) * f(r)
+    ds = m['rx'] if j is None else [m['rx'][j]]
+    exp = sum(amount(d) for d in ds)
+    kind = m['k'] + ('' if j is None else '-member')
+    big = max([abs(v) * f(k[1] if isinstance(k, tuple) else k) for k, v in fl.items()] + [1e-300])
+    ok = np.ndim(got) == 0 and abs(float(got) - exp) <= 1e-11 * max(abs(exp), abs(float(got))) + 1e-12 * big
+    rec.check(ok, 'reactant-flux', f'{kind}/{tag}', f'reactant_flux(index={i}, subindex={j}) = {got!r} but X * running reactant amount = {exp!r}', residual=(abs(float(got) - exp) / big) if np.ndim(got) == 0 else None)
+    restored('reactant_flux')
+    if exp > 0: rec.mark_nontrivial(case_hash(full))
 
 
 def replay(case, rec):
